@@ -114,6 +114,20 @@ func C03(c *Ctx) error {
 			jobs[i].main = 1
 		}
 	}
+	for i := range jobs {
+		if i%6 != 2 {
+			continue
+		}
+		// a messages-only file of the same package, generated in the same invocation and processed FIRST (the
+		// service file imports it): a generator that stops at a file without services publishes no route at all
+		mainF := jobs[i].req.Files[0]
+		types := &ir.File{Name: fmt.Sprintf("types%d/common.proto", i), Package: "common.v1", GoPackage: fmt.Sprintf("example.com/gen/common%d;commonpb", i),
+			Messages: []*ir.Message{{Name: "Money", Fields: []*ir.Field{{Name: "units", Number: 1, Kind: "int64"}, {Name: "currency", Number: 2, Kind: "string"}}}}}
+		mainF.Deps = append(mainF.Deps, types.Name)
+		jobs[i].req.Files = append([]*ir.File{types}, jobs[i].req.Files...)
+		jobs[i].req.Generate = append([]string{types.Name}, jobs[i].req.Generate...)
+		jobs[i].main = 1
+	}
 	parallel(n, func(i int) { jobs[i].outs, jobs[i].err = runAll(jobs[i].req) })
 	// driver batch
 	var dops []map[string]any
@@ -184,6 +198,17 @@ func C03(c *Ctx) error {
 			if t, counts, exErr = routes.OpenAPI(f, j.outs[plug.OpenAPI]); exErr == nil {
 				tabs["openapi"] = t
 			}
+		}
+		if exErr != nil && strings.HasPrefix(exErr.Error(), "no _") && strings.HasSuffix(exErr.Error(), " emitted") && len(f.Services) > 0 {
+			// a generator answered without an error and without the file that carries this file's routes: every RPC of the
+			// file is an RPC one of the five artefacts has no route for
+			var rpcs []string
+			for _, sv := range f.Services {
+				for _, m := range sv.Methods {
+					rpcs = append(rpcs, sv.Name+"."+m.Name)
+				}
+			}
+			res.Violation("artefact_missing", fmt.Sprintf("%s for %s although the plugin answered without an error: RPCs %v have no route in that artefact while the other generators publish one", exErr.Error(), f.Name, rpcs), map[string]any{"schema": j.req, "file": f.Name})
 		}
 		if exErr != nil {
 			res.Corr("extract", "route facts could not be read from emitted output: "+exErr.Error(), map[string]any{"schema": j.req})
